@@ -533,9 +533,56 @@ fn session_grid(thorough: bool) -> Vec<Case> {
 }
 
 /// sessions mixing schemes, content encodings, TOI widths (incl. wrap of a 16-bit space and 112-bit
+fn pt_of(s: Scheme) -> OtiSpec {
+    match s {
+        Scheme::NoCode => OtiSpec::new(s, 3, 2, 0, true),
+        Scheme::Raptor => OtiSpec::new(s, 2, 4, 1, true),
+        _ => OtiSpec::new(s, 4, 2, 1, true),
+    }
+}
+
 /// values), profiles and multi-transfer objects
 fn mixed_grid(thorough: bool) -> Vec<Case> {
     let mut v = Vec::new();
+    // full product of TOI width classes x TSI width classes (the LCT half-word flag is shared by both
+    // fields): three objects so that the TOI also steps across a class boundary or wraps inside a session
+    for (bits, init) in [
+        (112u8, 1u128),
+        (112, 0xFFFE),
+        (16, 0xFFFE),
+        (112, 0x1_0000),
+        (32, 0xFFFF_FFFE),
+        (112, 0xFFFF_FFFE),
+        (48, (1 << 48) - 2),
+        (112, (1 << 48) - 2),
+        (64, u64::MAX as u128 - 1),
+        (112, u64::MAX as u128 - 1),
+        (80, (1 << 80) - 2),
+        (112, (1 << 80) - 2),
+        (112, (1 << 96) - 2),
+        (112, (1 << 112) - 2),
+    ] {
+        for tsi in [1u64, 0xFFFF, 0x1_0000, 0xFFFF_FFFF, 0x1_0000_0000, (1 << 48) - 1] {
+            for full_fdt in [true, false] {
+                let mut s = SessSpec::basic(OtiSpec::new(Scheme::NoCode, 1424, 64, 0, true));
+                s.toi_bits = bits;
+                s.toi_init = Some(init.to_string());
+                s.tsi = tsi;
+                s.full_fdt = full_fdt;
+                let mut objs = Vec::new();
+                for (j, sch) in [Scheme::NoCode, Scheme::Rs28, Scheme::NoCode].into_iter().enumerate() {
+                    let mut o = ObjSpec::simple(9 + 4 * j, 40 + j as u8);
+                    let mut oti = pt_of(sch);
+                    oti.inband_fti = j % 2 == 0;
+                    o.oti = Some(oti);
+                    o.location = format!("file:///widths/o{}", j);
+                    objs.push(o);
+                }
+                let rx_variant = (v.len() % 3) as u8;
+                v.push(Case { sess: s, objs, receive_once: true, fs: false, rx_variant });
+            }
+        }
+    }
     let pt = |s: Scheme| -> OtiSpec {
         match s {
             Scheme::NoCode => OtiSpec::new(s, 3, 2, 0, true),
